@@ -473,4 +473,80 @@ theorem deserialize_forest_valid (doc : PyVal) (ci : ComposeInfo) (h : deseriali
     exact hb.symm
 
 
+/-- **top level by prefix = top level by explicit references**, exactly when "referenced as a child" and "the part before the
+last dash is a key" say the same of every key -/
+theorem tops_legacy_eq (keys cs : List Str)
+    (h : ∀ u ∈ keys, cs.contains u = true ↔ ∃ hd, legacyHead u = some hd ∧ keys.contains hd = true) :
+    keys.filter (isLegacyTop keys) = keys.filter (fun u => !cs.contains u) := by
+  apply List.filter_congr
+  intro u hu
+  show isLegacyTop keys u = !cs.contains u
+  unfold isLegacyTop
+  cases hl : legacyHead u with
+  | none =>
+    have : cs.contains u = false := by
+      cases hc : cs.contains u with
+      | false => rfl
+      | true => obtain ⟨hd, h1, _⟩ := (h u hu).mp hc; rw [hl] at h1; cases h1
+    simp only [this, Bool.not_false]
+  | some hd =>
+    cases hk : keys.contains hd with
+    | true =>
+      have : cs.contains u = true := (h u hu).mpr ⟨hd, hl, hk⟩
+      simp only [this, hk, Bool.not_true]
+    | false =>
+      have : cs.contains u = false := by
+        cases hc : cs.contains u with
+        | false => rfl
+        | true =>
+          obtain ⟨hd', h1, h2⟩ := (h u hu).mp hc
+          rw [hl] at h1; injection h1 with h1; subst h1; rw [hk] at h2; cases h2
+      simp only [this, hk, Bool.not_false]
+
+theorem lt_append_left (p : Str) {a b : Str} (h : a < b) : p ++ a < p ++ b := by
+  induction p with
+  | nil => exact h
+  | cons c cs ih => exact List.Lex.cons ih
+
+theorem sorted_map_prefix (p : Str) : ∀ {l : List Str}, SSorted l → SSorted (l.map (p ++ ·)) := by
+  intro l h
+  unfold SSorted at *
+  exact List.pairwise_map.mpr (h.imp (fun hab => lt_append_left p hab))
+
+/-- **children by prefix = children by explicit list**: in a table whose keys are in sorted order, the keys that start with
+`vuid-` are exactly `vuid-i` for the listed ids `i` (in the reader's order, `sorted(ids)`), provided nothing else starts with
+`vuid-` and every listed child is there -/
+theorem kids_legacy_eq (full : PyVal) (vuid : Str) (ids : List Str) (hs : SSorted full.keys)
+    (hex : ∀ k ∈ full.keys, Str.startsWith k (vuid ++ ['-']) = true ↔ ∃ i ∈ ids, k = vuid ++ '-' :: i)
+    (hin : ∀ i ∈ ids, vuid ++ '-' :: i ∈ full.keys) :
+    prefixKids full vuid = (Str.sortDedup ids).map fun i => vuid ++ '-' :: i := by
+  have h1 : SSorted (prefixKids full vuid) := by
+    unfold prefixKids SSorted
+    exact List.Pairwise.filter _ hs
+  have h2 : SSorted ((Str.sortDedup ids).map fun i => vuid ++ '-' :: i) := by
+    have := sorted_map_prefix (vuid ++ ['-']) (sortDedup_sorted ids)
+    simpa [List.append_assoc] using this
+  apply sorted_ext h1 h2
+  intro x
+  simp only [prefixKids, List.mem_filter, List.mem_map, mem_sortDedup]
+  constructor
+  · rintro ⟨hk, hp⟩
+    obtain ⟨i, hi, rfl⟩ := (hex x hk).mp hp
+    exact ⟨i, hi, rfl⟩
+  · rintro ⟨i, hi, rfl⟩
+    exact ⟨hin i hi, (hex _ (hin i hi)).mpr ⟨i, hi, rfl⟩⟩
+
+/-- the child keys the legacy reader finds for an entry WITHOUT a `variants` list are the child keys the current reader finds
+for the same entry WITH the list — sorted table, nothing else under the prefix, every listed child present -/
+theorem kidKeys_faithful (g : Gates) (hg : g.variant = true) (full data data' : PyVal) (vuid : Str) (ids : List Str)
+    (hd : data.get? k%"variants" = some (strList ids)) (hd' : data'.get? k%"variants" = none)
+    (hs : SSorted full.keys)
+    (hex : ∀ k ∈ full.keys, Str.startsWith k (vuid ++ ['-']) = true ↔ ∃ i ∈ ids, k = vuid ++ '-' :: i)
+    (hin : ∀ i ∈ ids, vuid ++ '-' :: i ∈ full.keys) :
+    kidKeysL g full data' vuid vuid = kidKeysL Gates.current full data vuid vuid := by
+  unfold kidKeysL kidIdsOf
+  simp only [hd, hd', hg, if_true, asStrList_strList]
+  rw [kids_legacy_eq full vuid ids hs hex hin]
+
+
 end PM.CI.Legacy
